@@ -120,8 +120,22 @@ Fixpoint ref_slots (npos : nat) (names : list nat) (fuel d : nat) : list nat :=
            end
   end.
 
+(* no gap: once a declared parameter receives no argument, no later one does *)
+Fixpoint nogapb (npos : nat) (names : list nat) (fuel d : nat) (missing : bool) : bool :=
+  match fuel with
+  | O => true
+  | S f => match slot_pos npos names d with
+           | None => nogapb npos names f (S d) true
+           | Some _ => negb missing && nogapb npos names f (S d) false
+           end
+  end.
+
 (* a well-formed call: no parameter bound twice, every keyword declared, no gap *)
 Definition cc_wf (npos ndecl : nat) (names : list nat) : bool :=
   Nat.leb npos ndecl && nodupb names &&
   forallb (fun x => Nat.leb npos x && Nat.ltb x ndecl) names &&
-  Nat.eqb (length (ref_slots npos names ndecl 0)) (npos + length names).
+  nogapb npos names ndecl 0 false.
+
+(* the order in which the arguments are evaluated: the temps, then the remaining arguments in place *)
+Definition cc_order (temps args : list nat) : list nat :=
+  temps ++ filter (fun p => negb (memb p temps)) args.
